@@ -447,6 +447,43 @@ def route_step(d, cache):
                     raise Violation("step-reply-misdirected", got=str(dd), dnet=np_["dnet"])
 
 
+@meta(bounds="the instance's loop-free topology with cold caches; a symbolic station sends THREE packets back to back toward a "
+             "symbolic remote network before any path is known - a unicast to each of its two stations and a remote broadcast "
+             "- so that the later ones wait for the path discovery the first one started; each must arrive exactly once, at "
+             "exactly the addressed stations, with the originator shown as source",
+      outside="bursts longer than three packets; bursts toward several remote networks at once",
+      stubs=STUBS)
+def route_burst(d, topo, knows_net=True):
+    T = TOPO[topo]
+    w = World()
+    lans, stations, routers = build(T, knows_net)
+    keys = sorted(stations)
+    src = d.pick(keys, 'source')
+    sn, sk = src
+    dn = d.pick([n for n in T["nets"] if n != sn], 'dnet')
+    tag = d.bytes(1, 1, 'payload')
+    sends = [("unicast-1", RemoteStation(dn, 1), {(dn, 1)}), ("unicast-2", RemoteStation(dn, 2), {(dn, 2)}),
+             ("remote-broadcast", RemoteBroadcast(dn), {(dn, 1), (dn, 2)})]
+    for i, (name, dest, _) in enumerate(sends):
+        stations[src].send(dest, bytes([0xB0 + i]) + bytes(tag))
+    w.run()
+    for i, (name, dest, expect) in enumerate(sends):
+        body = bytes([0xB0 + i]) + bytes(tag)
+        for k in keys:
+            got = [a for a in stations[k].got if bytes(a.pduData) == body]
+            want = 1 if k in expect else 0
+            if len(got) != want:
+                raise Violation("burst-delivery-count", packet=name, position=i, station=k, got=len(got), want=want,
+                                source=src, dnet=dn, topo=topo)
+            for a in got:
+                if knows_net and a.pduSource != RemoteStation(sn, sk):
+                    raise Violation("burst-source-shown", packet=name, shown=str(a.pduSource), source=src)
+    for k in keys:
+        if len(stations[k].got) != sum(1 for (_, _, e) in sends if k in e):
+            raise Violation("burst-unexpected-delivery", station=k, got=len(stations[k].got))
+    d.reach()
+
+
 def instances(tier):
     q = tier == "quick"
     out = []
@@ -465,6 +502,8 @@ def instances(tier):
     for t in (["pair", "line3"] if q else list(TOPO)):
         out.append(Inst(route_scn, dict(topo=t, warm=False, knows_net=False, announce=True), budget=80 if q else 900,
                         path_timeout=90, label="%s,cold,learns-net" % t))
+    for t in (["line3"] if q else ["pair", "line3", "star3", "line4", "tree5"]):
+        out.append(Inst(route_burst, dict(topo=t), budget=120 if q else 600, path_timeout=90, label=t))
     for c in CACHES:
         out.append(Inst(route_step, dict(cache=c), budget=300 if q else 900, path_timeout=60, label=c))
     out.append(Inst(route_cycle, dict(hmax=3 if q else 6, remote=False), budget=80 if q else 300))
